@@ -326,6 +326,15 @@ pub fn tr_stmts(cx: &mut Ctx, stmts: &[Stmt], k: &Cont) -> R<Tr> {
                         return Ok(Tr { s: format!("{}let {} := {}\n{}", pre, p, v.val(), r.s), ty: r.ty, prop: r.prop });
                     }
                 }
+                if cx.mut_self && cx.value_depth == 0 && matches!(k, Cont::Value(_)) && matches!(strip(e), Expr::Match(_) | Expr::If(_)) {
+                    if let Expr::If(i) = strip(e) {
+                        if i.else_branch.is_some() {
+                            return tr_stmts_branching(cx, s, k);
+                        }
+                    } else {
+                        return tr_stmts_branching(cx, s, k);
+                    }
+                }
                 if let Cont::Value(t) = k {
                     if !matches!(e, Expr::Return(_) | Expr::While(_) | Expr::Loop(_) | Expr::ForLoop(_) | Expr::Break(_) | Expr::Continue(_))
                         && !(matches!(e, Expr::If(i) if i.else_branch.is_none()))
@@ -373,6 +382,54 @@ fn tr_stmts_branching(cx: &mut Ctx, s: &Stmt, k: &Cont) -> R<Tr> {
                 tr_stmts_branching(cx, &st[0], k)
             })?;
             Ok(Tr::new(format!("{}(if {} then\n{}\n else\n{})", pre, c.as_prop(), a.val(), b.val()), join_ty(&a.ty, &b.ty)))
+        }
+        Expr::Match(m) if m.arms.iter().any(|a| a.guard.is_some()) => {
+            // integer scrutinee, literal / wildcard patterns, optional guards: an if-chain in CPS
+            let scrut = tr_expr(cx, &m.expr, None)?;
+            let pre = cx.take_prelude();
+            if !is_int(&scrut.ty) {
+                return Err("match guard on non-integer scrutinee".into());
+            }
+            let mut parts: Vec<(Option<String>, Tr)> = vec![];
+            let mut ty = Ty::Never;
+            for arm in &m.arms {
+                let pc = match &arm.pat {
+                    Pat::Wild(_) => None,
+                    Pat::Lit(l) => match &l.lit {
+                        Lit::Int(i) => Some(format!("({} = ({} : Int))", scrut.s, i.base10_digits())),
+                        _ => return Err("match guard with non-int literal".into()),
+                    },
+                    _ => return Err("match guard with binding pattern".into()),
+                };
+                let gc = match &arm.guard {
+                    Some((_, g)) => Some(tr_expr(cx, g, Some(&Ty::Bool))?.as_prop()),
+                    None => None,
+                };
+                if !cx.prelude.is_empty() {
+                    return Err("side effect in match guard".into());
+                }
+                let c = match (pc, gc) {
+                    (None, None) => None,
+                    (Some(a), None) => Some(a),
+                    (None, Some(b)) => Some(b),
+                    (Some(a), Some(b)) => Some(format!("({} ∧ {})", a, b)),
+                };
+                let body = with_scopes_saved(cx, |cx| {
+                    cx.push();
+                    let st = [Stmt::Expr((*arm.body).clone(), None)];
+                    tr_stmts_branching(cx, &st[0], k)
+                })?;
+                ty = join_ty(&ty, &body.ty);
+                parts.push((c, body));
+            }
+            let mut out = emit_return(cx, "panicV".into());
+            for (c, b) in parts.into_iter().rev() {
+                out = match c {
+                    None => b.val(),
+                    Some(c) => format!("(if {} then\n{}\n else\n{})", c, b.val(), out),
+                };
+            }
+            Ok(Tr::new(format!("{}{}", pre, out), ty))
         }
         Expr::Match(m) => {
             let scrut = tr_expr(cx, &m.expr, None)?;
